@@ -5,6 +5,8 @@ from ..persist import rule_P4_bound, rule_P1_P2, rule_P9, persist_classes, _ctor
 from ..shape import rule_N2
 from ..lockstep import ExpandingTracker
 from .C13 import rule_T9, G_UNION
+from ..rowfacts import rule_M1
+from ..memo import rule_K2
 
 LEVEL_TEXT = ('Weak structural claim only: the pool path merges exactly the counters the serial '
               'path advances; counters describe the rows actually cached; acceptance depends on '
@@ -19,6 +21,8 @@ def run(ctx):
     rule_T8ii(ctx, 'NautilusBound.sample')
     rule_Q1_Q2(ctx)
     rule_N2(ctx)
+    rule_M1(ctx)      # what sample() hands out is inside the region contains() accepts
+    rule_K2(ctx)      # a cached volume is invalidated by every counter update (serial and pool)
     for q in ('Union.split', 'Union.trim'):     # counters restart when the member set changes
         fq = prog.func(q)
         rule_T9(ctx, fq, ExpandingTracker(fq, G_UNION.members + ['log_v_all'],
